@@ -102,6 +102,22 @@ def run(ctx):
                 res.violations.append(vlib.Violation(
                     "the tally shown for user-defined refgroup '%s' is not the number of references satisfying its rules" % sym, inp,
                     expected=want, observed=got, cls="reserved-refgroup-name"))
+        # regular expressions whose ONLY syntax is a counted repetition (a{1,2}, a{2}, a{1,}): still regular expressions
+        for pat, refsx, want in ((b"refs/heads/a{1,2}", [b"refs/heads/a", b"refs/heads/aa", b"refs/heads/aaa", b"refs/heads/a{1,2}"], {"rep": 2}),
+                                 (b"refs/heads/a{2}", [b"refs/heads/a", b"refs/heads/aa", b"refs/tags/aa"], {"rep": 1}),
+                                 (b"refs/tags/v{1,}1", [b"refs/tags/v1", b"refs/tags/vv1", b"refs/tags/v{1,}1"], {"rep": 2})):
+            cfgx = [("refgroup.rep.includeregexp", pat.decode())]
+            s, c = RC.base_scenario()
+            for n in refsx:
+                s.refs.append((n, c))
+            s.compute()
+            rc, out, err, log = eng.run_fake(s, s.enum_gitlike([c]), [], [], config=cfgx, extra_args=["--json", "--no-progress"])
+            res.case(("counted-repetition", pat), True)
+            inp = {"config": cfgx, "refs": [n.decode() for n in refsx]}
+            got = json.loads(out)["reference_groups"].get("rep", 0) if rc == 0 else None
+            if got != want["rep"]:
+                res.violations.append(vlib.Violation("the tally of a group defined by a regular expression with a counted repetition is not the number of names it matches", inp,
+                                                     expected=want["rep"], observed={"rc": rc, "tally": got, "stderr": err[:200].decode("latin1")}))
         # group symbols containing blanks next to groups named like their halves (and other separators a careless key might use)
         for sep in (" ", ",", "/", ".x.", "  "):
             a, b = "a", "b"
